@@ -1507,6 +1507,43 @@ def install(ex):
             raise Unsupported("str::len of %r" % (sv,))
         yield z3.IntVal(n) if callee.endswith("len") else z3.BoolVal(n == 0)
 
+    @model(r"^core::num::<impl (i32|u32|i64|u64|usize)>::(checked_pow|pow)$", "integer pow / checked_pow with a small (<= 40) exponent, unrolled")
+    def int_pow(ex, callee, args, rt):
+        b, e = args[0], args[1]
+        ty = re.search(r"<impl (\w+)>", callee).group(1)
+        lo, hi = INT_RANGES[ty]
+        checked = "checked_pow" in callee
+        for k in ex.branches([e == i for i in range(0, 41)] + [e > 40]):
+            if k == 41:
+                raise Unsupported("pow with an exponent above 40")
+            val = z3.IntVal(1)
+            for _ in range(k):
+                val = val * b
+            fits = z3.And(val >= lo, val <= hi)
+            # intermediate overflow = final overflow for |b| >= 2; for |b| <= 1 nothing overflows
+            for i in ex.branches([fits, z3.Not(fits)]):
+                if i == 0:
+                    yield Some(val) if checked else val
+                elif checked:
+                    yield NONE
+                else:
+                    ex.panic("attempt to multiply with overflow (pow)", callee)
+
+    @model(r"^core::str::<impl str>::split_once$", "str::split_once(char) on a character list: at the first occurrence (one fork per position)")
+    def str_split_once(ex, callee, args, rt):
+        sv = ex.deref(args[0])
+        pat = ex.deref(args[1])
+        if not (isinstance(sv, CharStr) and is_z3(pat) and z3.is_int(pat)):
+            raise Unsupported("split_once(%r, %r)" % (sv, pat))
+        n = len(sv.chars)
+        conds = [z3.And(sv.chars[i] == pat, *[sv.chars[j] != pat for j in range(i)]) for i in range(n)]
+        conds.append(z3.And(*[c != pat for c in sv.chars]) if n else z3.BoolVal(True))
+        for i in ex.branches(conds):
+            if i == n:
+                yield NONE
+            else:
+                yield Some(Tup([CharStr(sv.chars[:i]), CharStr(sv.chars[i + 1:])]))
+
     @model(r"^(std::string::)?String::truncate$", "String::truncate(n) on a character list: n counts bytes and must fall on a character boundary (panic otherwise)")
     def string_truncate(ex, callee, args, rt):
         r = args[0]
